@@ -967,7 +967,7 @@ func run(r *core.R) {
 		"destroy_transient_failure", "destroy_in_use", "stale_reference_kept", "out_of_band_edit", "process_restart",
 		"persistent_outage", "gave_up_after_retries")
 	r.ProbeDecl("temp_swap_used", "referenced_params_changed_by_swap", "incremental_update_of_referenced_set", "temp_set_destroyed",
-		"write_error_surfaced", "list_set_not_found", "oob_edit_mid_call", "oob_destroyed_felix_set", "retry_backoff_sleep",
+		"write_error_surfaced", "bulk_members", "list_set_not_found", "oob_edit_mid_call", "oob_destroyed_felix_set", "retry_backoff_sleep",
 		"start_of_day_resync", "apply_succeeded_after_faults", "exact_check_after_updates", "no_stray_check",
 		"clean_resync_round_completed", "settle_needed_rescheduled_iterations", "converged_in_round_1", "converged_in_round_2",
 		"converged_in_round_3", "size_or_range_change_requested", "type_change_requested", "filter_excludes_programmed_set",
@@ -987,6 +987,12 @@ func run(r *core.R) {
 		maxU, maxIDs, maxRounds = 14, 8, 20
 	}
 	w.universe = r.Src.Range(1, maxU, "universe")
+	// bulk profile: member lists long enough that one restore session exceeds Felix's 4 KiB write buffer, so
+	// that write errors surface in the middle of a batch, several sets after the command that killed the child
+	if r.Src.Chance(120, "bulk_members") {
+		w.universe = r.Src.Range(100, 250, "universe_bulk")
+		r.Probe("bulk_members")
+	}
 	nIDs := r.Src.Range(1, maxIDs, "n_ids")
 	for i := 0; i < nIDs; i++ {
 		id := fmt.Sprintf("s:Sim%02d-_x", i)
